@@ -34,6 +34,11 @@ PAYLOADS = [
                         "size": 12345, "md5": "0" * 32}},
     lambda r: {"deep": {"deeper": {"deepest": {"x": [[[[r.randint(0, 9)]]]]}}}},
     lambda r: None if r.random() < 0.3 else {"z": None, "r": r.randint(0, 9)},
+    lambda r: r.random() < 0.5,                                                    # a bare boolean
+    lambda r: r.choice([0.5, -1.25, 1e300, 3.0]) + r.randint(0, 9),                # a bare float
+    lambda r: "",
+    lambda r: [],
+    lambda r: {},
     lambda r: {"signatures": {}, "signed": {"inner": r.randint(0, 99)}},                                  # a payload that looks like an envelope
     lambda r: {"signatures": {"ab" * 32: {"signature": "cd" * 64}}, "signed": [r.randint(0, 99)]},
 ]
@@ -89,7 +94,7 @@ def make_payloads(r: random.Random):
     """Two JSON values P, Q with different canonical bytes (Q is 'related': a small edit of P)."""
     P = r.choice(PAYLOADS)(r)
     mode = r.randrange(4)
-    if mode == 0 or not isinstance(P, (dict, list)):
+    if mode == 0 or not isinstance(P, (dict, list)) or not P:
         Q = r.choice(PAYLOADS)(r)
     elif isinstance(P, dict):
         Q = copy.deepcopy(P)
